@@ -429,6 +429,8 @@ def eval_C20(item):
     elif kind == 'nanmask':
         i = r.randrange(len(case['k']))
         c2['k'][i] = None if case['k'][i] is not None else 3
+        if all(x is None for x in c2['k']):      # an all-NaN array has no finite minimum: not a dendrogram input
+            c2['k'][i] = 7
     elif kind == 'shape':
         c2['periodic'] = []
         c2['adj'] = 'grid'
